@@ -7,6 +7,7 @@ package verifutil
 
 import (
 	"bufio"
+	"context"
 	"fmt"
 	"os"
 	"path/filepath"
@@ -15,6 +16,11 @@ import (
 	"strconv"
 	"strings"
 	"testing"
+
+	"go.opentelemetry.io/otel"
+	"go.opentelemetry.io/otel/trace"
+	"go.opentelemetry.io/otel/trace/embedded"
+	"go.opentelemetry.io/otel/trace/noop"
 )
 
 // RNG is splitmix64; every random choice of a case derives from hash(seed, case index).
@@ -141,6 +147,11 @@ func Run(t *testing.T, cfg Config) {
 	if s := os.Getenv("VERIF_SHARD"); s != "" {
 		fmt.Sscanf(s, "%d/%d", &shard, &shards)
 	}
+	// odd shards run with tracing switched on (recording spans): the deferred tracing blocks all over the code base then
+	// run too; they must change nothing and, above all, crash nothing
+	if shard%2 == 1 && os.Getenv("VERIF_NOTRACE") == "" {
+		otel.SetTracerProvider(recTracerProvider{})
+	}
 	n := cfg.QuickN
 	if tier == "thorough" {
 		n = cfg.ThoroughN
@@ -253,3 +264,19 @@ func Run(t *testing.T, cfg Config) {
 		emit(c)
 	}
 }
+
+// a tracer provider whose spans report IsRecording (the OpenTelemetry SDK is not among the module's dependencies)
+type recSpan struct{ noop.Span }
+
+func (recSpan) IsRecording() bool { return true }
+
+type recTracer struct{ embedded.Tracer }
+
+func (recTracer) Start(ctx context.Context, name string, opts ...trace.SpanStartOption) (context.Context, trace.Span) {
+	s := recSpan{}
+	return trace.ContextWithSpan(ctx, s), s
+}
+
+type recTracerProvider struct{ embedded.TracerProvider }
+
+func (recTracerProvider) Tracer(string, ...trace.TracerOption) trace.Tracer { return recTracer{} }
